@@ -779,6 +779,8 @@ def _argument_key(value):
     if isinstance(value, tuple):
         # Equal tuples may hold different values: (1,) == (True,).
         return (type(value), tuple(_argument_key(x) for x in value))
+    if isinstance(value, _StringLiteral):
+        return (_StringLiteral, str(value), value._parse_function)
     return (type(value), value)
 
 
@@ -822,17 +824,22 @@ def _run(${ctx}text, pos, start, fullparse):
                 memo[key] = result
             continue
 
+        # A string literal passed as an argument is a string that can be called:
+        # the same text may be matched in different ways (a grammar that extends
+        # another one may skip ignored tokens after it).
+        key = result
+        if key[1].__class__ is _StringLiteral:
+            key = (key[0], key[1]._parse_function, key[2])
+
         # The arguments of a parameterised rule are part of the key, and they
         # need not be hashable: such a call is simply not memoised.
         try:
-            is_known = result in memo
+            is_known = key in memo
         except TypeError:
             is_known, key = False, None
-        else:
-            key = result
 
         if is_known:
-            result = memo[result]
+            result = memo[key]
         else:
             gtor = result[1](${ctx}text, result[2])
             stack.append((key, gtor))
